@@ -42,6 +42,9 @@ def gaps(P, tol):
         g = P * k
         if g > 0 and g not in out:
             out.append(g)
+    # a time-stamp that lies BEFORE its predecessor (a late sample): the gap is negative, hence outside the interval, and the next gap is
+    # measured from this time-stamp, not from the largest one seen so far
+    out.append(-P / 2)
     return out
 
 
